@@ -277,8 +277,18 @@ def explore_comb(build, make_ref, cfg, tier, seed, *, letter_cap=40000, sim_budg
     h, early = build_or_classify(build, cfg)
     if h is None:
         return early
+    twice = bool(isinstance(cfg, dict) and cfg.get("elab_twice"))
     try:
         comp = compile_harness(h)
+        if twice:
+            # the SAME instance elaborated again; the second elaboration is what gets checked (whether a second
+            # elaboration is possible at all is C19's question: the configuration is skipped here if it is not)
+            try:
+                comp = compile_harness(h)
+            except ToolError:
+                raise
+            except Exception as e:
+                return dict(refused=True, refusal=dict(type=type(e).__name__, message="second elaboration failed (C19's subject)", where=""))
     except ToolError as e:
         raise ToolFailure(f"netlist: {e}")
     except Exception as e:
@@ -331,7 +341,7 @@ def explore_comb(build, make_ref, cfg, tier, seed, *, letter_cap=40000, sim_budg
                 e = exp.get(p)
                 if e is not None and outs[i] != e:
                     # re-derive in the simulator
-                    got = simulate(build(cfg), [letter], probe_names=set(comp.probe_names))[0]
+                    got = simulate(build(cfg), [letter], probe_names=set(comp.probe_names), pre_elab=twice)[0]
                     note = None
                     if got[i] != outs[i]:
                         same = simulate(h, [letter], probe_names=set(comp.probe_names), design=comp.design)[0]
@@ -349,7 +359,7 @@ def explore_comb(build, make_ref, cfg, tier, seed, *, letter_cap=40000, sim_budg
     # bind to the implementation: the sampled letters as ONE trace through amaranth.sim
     cycles = 0
     if sampled:
-        got = simulate(build(cfg), sampled, probe_names=set(comp.probe_names))
+        got = simulate(build(cfg), sampled, probe_names=set(comp.probe_names), pre_elab=twice)
         for letter, g in zip(sampled, got):
             outs, _ = comp.step(comp.init, letter)
             if tuple(outs) != tuple(g):
@@ -384,7 +394,7 @@ def explore_comb(build, make_ref, cfg, tier, seed, *, letter_cap=40000, sim_budg
 
 def replay_comb(build, make_ref, cfg, trace):
     h2 = build(cfg)
-    got = simulate(h2, [tuple(l) for l in trace])
+    got = simulate(h2, [tuple(l) for l in trace], pre_elab=bool(isinstance(cfg, dict) and cfg.get("elab_twice")))
     h3 = build(cfg)
     comp = compile_harness(h3)
     ref = make_ref(cfg, h3, comp)
